@@ -121,6 +121,73 @@ def main(argv):
                 c.violation("an element whose declared length exceeds the enclosing element is accepted: `%s` -> %s" % (ln[:80], o[:80]),
                             {"cmd": ln, "observed": o}, key="overrun-accepted")
     dis += cd.diff(lines, label="overrun", on_case=on_over)
+    # ---- the decrypted scoped PDU is an element too: its extent is the msgData OCTET STRING that was decrypted, whatever an
+    # earlier request or reply left in the cipher's private buffer.  Inner lengths that run past the plaintext are rejected.
+    ok3, log3, v3exe = vf.ocaml_build("v3", "v3_model", "v3_driver")
+    if not ok3:
+        c.errors.append("building the extracted v3 model failed: " + log3[-800:])
+        return c.finish("n/a")
+
+    def nested(k):
+        """a scoped PDU carrying one OCTET STRING, every enclosing length on the path to it declared k octets too long"""
+        t = lambda tag, content, extra=0: bytes([tag]) + ber.enc_len(len(content) + extra) + content
+        val = t(4, b"value-" + gen.rbytes(rng, rng.randint(0, 20), False), k)
+        vb = t(0x30, ber.enc_oid([1, 3, 6, 1, 2, 1, 1, 5, 0]) + val, k)
+        vbl = t(0x30, vb, k)
+        pdu = t(0xA2, ber.enc_int(99) + ber.enc_int(0) + ber.enc_int(0) + vbl, k)
+        return t(0x30, ber.tlv(4, b"\x80\x00\x01") + ber.tlv(4, b"") + pdu, k)
+    plines, pmeta = [], []
+    for _ in range(400 if thorough else 80):
+        alg = rng.choice([1, 2])
+        key = gen.rbytes(rng, 16, False)
+        k = rng.choice([0, 0, 1, 2, 7, 8, 16, 24, 40])
+        plain = nested(k)
+        salt = gen.rbytes(rng, 8, False)
+        boots, tm = rng.randrange(2 ** 31), rng.randrange(2 ** 31)
+        if alg == 1:
+            iv = bytes(a ^ b for a, b in zip(salt, key[8:16]))
+            q = "cipher des enc %s %s %s" % (key[:8].hex(), iv.hex(), (plain + bytes((-len(plain)) % 8)).hex())
+        else:
+            iv = boots.to_bytes(4, "big") + tm.to_bytes(4, "big") + salt
+            q = "cipher aes enc %s %s %s" % (key.hex(), iv.hex(), plain.hex())
+        ct = vf.run_lines(v3exe, [q], shards=1)[0][3:]
+        # history first: requests of various sizes leave their ciphertext in the private buffer
+        hist = []
+        for _h in range(rng.choice([0, 1, 1, 2])):
+            arcs = [1, 3, 6, 1, 4, 1] + [rng.randrange(2 ** 32) for _y in range(rng.choice([1, 8, 30]))]
+            hist.append("e,800001,get:5:%s,1,2" % ber.oid_content(arcs).hex())
+        plines.append("priv %d %s %s" % (alg, key.hex(), "|".join(hist + ["d,%s,%d,%d,%s" % (salt.hex(), boots, tm, ct)])))
+        # the decrypted msgData of DES includes the padding: only lengths beyond it run past the element
+        pmeta.append((max(0, k - ((-len(plain)) % 8 if alg == 1 else 0)), len(hist)))
+    pr = vf.run_lines(cd.rel, plines)
+    pdbg = vf.run_lines(cd.dbg, plines)
+    # the model is told the salt the implementation drew (first encrypt) so that whole lines compare
+    mlines = []
+    for ln, o in zip(plines, pr):
+        f = ln.split(" ")
+        enc = [x for x in o[3:].split(" | ") if x.startswith("E ")] if o.startswith("OK ") else []
+        seed = 0
+        if enc:
+            pp0 = enc[0].split(" ")[2]
+            seed = int(pp0[8:], 16) if f[1] == "1" else int(pp0, 16)
+        mlines.append("priv %s %s %d %s" % (f[1], f[2], seed, f[3]))
+    pm = vf.run_lines(v3exe, mlines, shards=8)
+    for ln, (k, nh), ml, rl, dl in zip(plines, pmeta, pm, pr, pdbg):
+        c.count(("privacy-extent", ln[:300]), k > 0 and nh > 0)
+        for prof, o in (("release", rl), ("debug", dl)):
+            last = o[3:].split(" | ")[-1] if o.startswith("OK ") else o
+            mlast = ml[3:].split(" | ")[-1] if ml.startswith("OK ") else ml
+            if codec.canon(last, cd.emap) != codec.canon(mlast, cd.emap):
+                dis += 1
+                if not any(b.startswith("correspondence") for b in c.broken):
+                    c.broken = list(c.broken) + ["correspondence `%s`: model `%s` impl(%s) `%s`" % (ln[:200], mlast[:120], prof, last[:120])]
+            if k > 0 and last.startswith("D "):
+                c.violation("a decrypted scoped PDU whose inner lengths run %d octets past the decrypted msgData is read instead of rejected, "
+                            "after %d earlier request(s) on the key (%s build): %s" % (k, nh, prof, last[:80]),
+                            {"cmd": ln, "profile": prof, "observed": o}, key="privacy-extent")
+            if k == 0 and not last.startswith("D plain(800001,resp(99,0,0;"):
+                c.violation("a well-formed encrypted reply is not read after %d earlier request(s) on the key (%s build): %s" % (nh, prof, last[:80]),
+                            {"cmd": ln, "profile": prof, "observed": o}, key="privacy-extent-wellformed")
     return c.finish(
         rule="%d (x, s) pairs: x a legal encoding (all value kinds incl. REAL, non-minimal lengths/integers, SEQUENCE/context elements, "
              "v1/v2c/v3/USM messages), s 1..40 appended octets; plus %d messages whose inner value length is tampered to run past the "
